@@ -62,8 +62,15 @@ type KnownFile struct {
 
 var (
 	repoDir  = "/repo"
-	verifDir = "/verif"
+	verifDir = verifDirDefault()
 )
+
+func verifDirDefault() string {
+	if v := os.Getenv("VERIF_DIR"); v != "" {
+		return v
+	}
+	return "/verif"
+}
 
 func main() {
 	if len(os.Args) < 2 {
